@@ -811,6 +811,34 @@ theorem chase_sound_and_equal (cache : List Hop) (qtOK : Bool) (el : Nat) (cd : 
 example : wireChase [{ kind := .cname, ad := true, ttl := 200, target := 1 }, { kind := .terminal, ad := false, ttl := 60, target := 0 }]
     true 7500 false = some { hops := 2, ad := false, infoAD := false, ttls := [192, 52] } := by decide
 
+/-- **The byte path's ancestor walk visits exactly the decoded path's
+ancestors, the root included.** For every name of well-formed labels,
+`walkWireSuffixes` over the wire form — the walk behind the wire cut lookup,
+the wire failure-zone lookup and the miss-witness hold check — hands its
+visitor the wire form of the name, of every parent and finally of the root,
+in the order `walkFailureZones` / `denialProofAncestors` visit them on the
+decoded side: no denial, cut or failure zone at any depth (a root-zone NSEC
+proof denying a nonexistent TLD, say) is visible to one path and not the other. -/
+theorem wire_suffix_walk_eq_decoded : ∀ (labels : List Bytes) (fuel : Nat),
+    (∀ l ∈ labels, 1 ≤ l.length ∧ l.length ≤ 63) → labels.length + 1 ≤ fuel →
+    walkWireSuffixes fuel (encName labels) = (decodedAncestors labels).map encName
+  | [], fuel, _, hf => by
+    match fuel, hf with
+    | f + 1, _ => simp [walkWireSuffixes, encName, decodedAncestors]
+  | l :: t, fuel, hl, hf => by
+    match fuel, hf with
+    | f + 1, hf =>
+      have h1 := hl l (List.mem_cons_self ..)
+      have ih := wire_suffix_walk_eq_decoded t f (fun x hx => hl x (List.mem_cons_of_mem _ hx))
+        (by simp only [List.length_cons] at hf; omega)
+      have hc : ¬ (l.length = 0 ∨ l.length > 63 ∨ (l ++ encName t).length < l.length) := by
+        simp only [List.length_append]; omega
+      simp only [encName, walkWireSuffixes, hc, if_false, decodedAncestors, List.map_cons, List.drop_left', ih]
+
+-- non-vacuity: www.example. — three suffixes, the last one the root octet
+example : walkWireSuffixes 8 (encName [[119, 119, 119], [101, 120]]) =
+    [[3, 119, 119, 119, 2, 101, 120, 0], [2, 101, 120, 0], [0]] := by decide
+
 /-! ## 6. Facts regenerated from the tree (one-directional side conditions) -/
 
 /-- The real `ApplyReply` / `ClearAD`, evaluated on every single-bit word (and
